@@ -1347,7 +1347,9 @@ struct ical_parser_s {
 	/* whether the line under way has turned out too long for the stash,
 	 * it's passed over as a whole then, however it arrives */
 	bool skip;
-	char stash[1024U];
+	/* grows with the lines */
+	char *stash;
+	size_t stz;
 };
 
 #define ICAL_EOP	((struct ical_vevent_s*)0x1U)
@@ -1404,6 +1406,27 @@ esccpy(char *restrict tgt, size_t tz, const char *src, size_t sz)
 	}
 	tgt[ti] = '\0';
 	return ti;
+}
+
+static size_t
+stashcpy(struct ical_parser_s p[static 1U], const char *src, size_t sz)
+{
+/* esccpy() SRC behind what's in P's stash making room first,
+ * what esccpy() produces is never longer than what it reads */
+	if (p->six + sz + 1U > p->stz) {
+		size_t nuz = p->stz ?: 1024U;
+		char *nu;
+
+		while (nuz < p->six + sz + 1U) {
+			nuz *= 2U;
+		}
+		if (UNLIKELY((nu = realloc(p->stash, nuz)) == NULL)) {
+			return ESCCPY_NOFIT;
+		}
+		p->stash = nu;
+		p->stz = nuz;
+	}
+	return esccpy(p->stash + p->six, p->stz - p->six, src, sz);
 }
 
 static int
@@ -1703,14 +1726,13 @@ chop_more:
 		/* we must have stopped mid-stream at the end of the buffer,
 		 * copy what we've got to the stash, what counts is what's
 		 * left of it without the folds */
-		char *restrict sp = p->stash + p->six;
-		size_t sz = sizeof(p->stash) - p->six;
+		size_t sz;
 
 		if (p->skip) {
 			/* more of a line we're passing over */
 			;
-		} else if ((sz = esccpy(sp, sz, BP, BZ)) == ESCCPY_NOFIT) {
-			/* our stash space is too small to hold the line,
+		} else if ((sz = stashcpy(p, BP, BZ)) == ESCCPY_NOFIT) {
+			/* no room to be had for this line,
 			 * pass over all of it, the rest is yet to come */
 			p->skip = true;
 			p->six = 0U;
@@ -1729,8 +1751,7 @@ chop_more:
 	} else {
 		const char *bp = BP;
 		const size_t llen = eol - bp;
-		char *restrict sp = p->stash + p->six;
-		size_t slen = sizeof(p->stash) - p->six;
+		size_t slen;
 
 		/* ... pretend we've consumed it all */
 		BI += llen;
@@ -1739,8 +1760,8 @@ chop_more:
 		if (p->skip) {
 			/* the end of a line we're passing over */
 			;
-		} else if ((slen = esccpy(sp, slen, bp, llen)) == ESCCPY_NOFIT) {
-			/* too long, pass over all of it */
+		} else if ((slen = stashcpy(p, bp, llen)) == ESCCPY_NOFIT) {
+			/* no room, pass over all of it */
 			p->skip = true;
 		} else {
 			/* store new stash pointer */
@@ -1779,6 +1800,9 @@ _ical_fini(struct ical_parser_s p[static 1U])
 	}
 	/* free the globve */
 	free_ical_vevent(&p->globve);
+	if (p->stash != NULL) {
+		free(p->stash);
+	}
 	/* dissolve all of it */
 	memset(p, 0, sizeof(*p));
 	return;
